@@ -32,14 +32,17 @@ class SymPath:
         return SStr([]), p
 
     @staticmethod
-    def join(a, b):
+    def join(a, *rest):
         a = SStr.of(a)
-        b = SStr.of(b)
-        if len(b) and SStr([b.c[0]]) == '/':
-            return b
-        if len(a) == 0 or (isinstance(a.c[-1], int) and a.c[-1] == 47):
-            return a + b
-        return a + '/' + b
+        for b in rest:
+            b = SStr.of(b)
+            if len(b) and SStr([b.c[0]]) == '/':
+                a = b
+            elif len(a) == 0 or SStr([a.c[-1]]) == '/':
+                a = a + b
+            else:
+                a = a + '/' + b
+        return a
 
     @staticmethod
     def isfile(p):
